@@ -693,3 +693,72 @@ def fmt_calls(fn):
             args.append(src)
         out.append((c, pieces, args))
     return out
+
+
+def plain_chain(fn, local, limit=20):
+    """Follow copies backwards (uses, reborrows, Try::branch, conversions that keep the number): ('len', call) when the value is the length of a
+    list, ('value', None) when it is a plain value nothing was added to, ('computed', what) when arithmetic went into it."""
+    KEEP = ("core::ops::try_trait::Try::branch", "anyhow::Context::with_context", "anyhow::Context::context", "core::convert::TryInto::try_into",
+            "core::convert::TryFrom::try_from", "core::convert::Into::into", "core::convert::From::from", "core::ops::deref::Deref::deref",
+            "core::clone::Clone::clone", "core::result::Result::unwrap", "core::option::Option::unwrap")
+    cur = local
+    for _ in range(limit):
+        ds = defs_of(fn, cur)
+        if len(ds) != 1:
+            return ("value", None)          # a parameter, or joined from several places: not arithmetic on the spot
+        d = ds[0]
+        if d[0] == "call":
+            c = d[4]
+            nm = mir.strip_generics(c.callee())
+            if nm.endswith(("Vec::len", "<impl [T]>::len", "VecDeque::len")):
+                return ("len", c)
+            if c.matches(KEEP) and c.args and op_local(c.args[0]) is not None:
+                cur = op_local(c.args[0])
+                continue
+            return ("value", c)
+        rv = d[4]
+        if "use" in rv:
+            nxt = op_local(rv["use"])
+        elif "ref" in rv:
+            nxt = rv["ref"]["l"]
+        elif "cast" in rv:
+            nxt = op_local(rv["op"])
+        elif "bin" in rv or "un" in rv:
+            return ("computed", rv.get("bin") or rv.get("un"))
+        else:
+            return ("value", None)
+        if nxt is None:
+            return ("value", None)
+        cur = nxt
+    return ("value", None)
+
+
+def in_range_edges(fn, blocks=None):
+    """Edges that are taken only when `index < len` holds for a plain index value and the length of a list: [(bb, target)], and the
+    comparisons they belong to."""
+    edges, cmps = set(), []
+    for bi, si, dst, rv, st in fn.assigns():
+        if blocks is not None and bi not in blocks:
+            continue
+        if rv.get("bin") not in ("Lt", "Le", "Gt", "Ge"):
+            continue
+        l, r = op_local(rv["l"]), op_local(rv["r"])
+        if l is None or r is None:
+            continue
+        kl, kr = plain_chain(fn, l), plain_chain(fn, r)
+        # which edge says index < len
+        passing = None
+        if kl[0] == "value" and kr[0] == "len":       # index OP len
+            passing = {"Lt": True, "Ge": False}.get(rv["bin"])
+        elif kl[0] == "len" and kr[0] == "value":     # len OP index
+            passing = {"Gt": True, "Le": False}.get(rv["bin"])
+        if passing is None:
+            continue
+        cmps.append((bi, rv["bin"], st.get("sp")))
+        for bb, t_t, f_t, pol in bool_switches(fn, fn.derived([dst["l"]])):
+            if pol is None:
+                continue
+            edges.add((bb, t_t if (pol == passing) else f_t))
+    return edges, cmps
+
+
